@@ -71,12 +71,15 @@ type scenario struct {
 	// failNode >= 0: this node drops the connection instead of executing the first data command it receives after the
 	// migrations have fired (a node that fails while another node group of the same batch is still being redirected)
 	failNode int
+	// hangNode >= 0: after the hand-over this node executes the first command of key 0 it receives and closes the connection
+	// without answering (the new owner goes away between executing a redirected command and its reply)
+	hangNode int
 }
 
 // failFastScenario: blocking batches that span two nodes while the slot of one key is handed over to a busy node and the
 // node of the other key drops its connection: one node group of a batch fails at once, the other is still being redirected
 func failFastScenario(r *hx.Rng, id int) *scenario {
-	sc := &scenario{id: id, mode: "batch", start: int64(100 + r.Intn(900)), batch: 3, slowNode: -1, failNode: -1}
+	sc := &scenario{id: id, mode: "batch", start: int64(100 + r.Intn(900)), batch: 3, slowNode: -1, failNode: -1, hangNode: -1}
 	k1 := []byte(fmt.Sprintf("{m%d}moved", r.Intn(4000)))
 	k2 := []byte(fmt.Sprintf("{f%d}fails", r.Intn(4000)))
 	for fakeredis.HashSlot(k2)*3/16384 == fakeredis.HashSlot(k1)*3/16384 {
@@ -99,10 +102,42 @@ func failFastScenario(r *hx.Rng, id int) *scenario {
 	return sc
 }
 
+// hangUpScenario: two keys; first the slot of key 1 is handed over to another node (the sender learns the new owner and from
+// then on holds a pooled connection to it), later the slot of key 0 follows, and the new owner executes the first redirected
+// command of key 0 and hangs up before its reply.  Blocking batches (a transactional link cannot go on once its keys live on
+// two nodes: every later run ends with "not hashed in the same node", which is a reported error, not a replay).
+func hangUpScenario(r *hx.Rng, id int) *scenario {
+	sc := &scenario{id: id, mode: "batch", start: int64(100 + r.Intn(900)), batch: 1 + r.Intn(3), slowNode: -1, failNode: -1, hangNode: -1}
+	pick := func(pfx string, other []byte) []byte {
+		for {
+			k := []byte(fmt.Sprintf("{%s%d}k", pfx, r.Intn(4000)))
+			// (a transactional link writes to one shard: both keys start on node 0)
+			if fakeredis.HashSlot(k)*3/16384 == 0 && (other == nil || fakeredis.HashSlot(k) != fakeredis.HashSlot(other)) {
+				return k
+			}
+		}
+	}
+	k0 := pick("m", nil)
+	k1 := pick("s", k0)
+	sc.keys = [][]byte{k0, k1}
+	n := 12 + r.Intn(6)
+	for i := 0; i < n; i++ {
+		k := i % 2
+		sc.cmds = append(sc.cmds, srcCmd{name: "rpush", args: [][]byte{sc.keys[k], []byte(fmt.Sprintf("v%d", i+1))}, key: k, keys: []int{k}})
+	}
+	at := r.Intn(3)
+	dst := 1 + r.Intn(2)
+	at2 := at + 5 + r.Intn(5)
+	sc.steps = []migStep{{at: at, kind: "begin", key: 1, dst: dst}, {at: at, kind: "finish", key: 1},
+		{at: at2, kind: "begin", key: 0, dst: dst}, {at: at2, kind: "finish", key: 0}}
+	sc.hangNode = dst
+	return sc
+}
+
 // tryAgainScenario: two keys of one tag and a three-key DEL in the middle of a batch while their slot is in migration with
 // not all of the keys present at the old owner: the node answers TRYAGAIN to the DEL and has the commands behind it in hand
 func tryAgainScenario(r *hx.Rng, id int) *scenario {
-	sc := &scenario{id: id, mode: []string{"batch", "txn", "pipeline", "txnpipe"}[r.Intn(4)], start: int64(100 + r.Intn(900)), batch: 3 + r.Intn(3), slowNode: -1, failNode: -1}
+	sc := &scenario{id: id, mode: []string{"batch", "txn", "pipeline", "txnpipe"}[r.Intn(4)], start: int64(100 + r.Intn(900)), batch: 3 + r.Intn(3), slowNode: -1, failNode: -1, hangNode: -1}
 	tag := fmt.Sprintf("q%d", r.Intn(4000))
 	for fakeredis.HashSlot([]byte("{"+tag+"}k0"))*3/16384 != 0 { // (a transactional link writes to one shard: node 0)
 		tag = fmt.Sprintf("q%d", r.Intn(4000))
@@ -129,7 +164,7 @@ func tryAgainScenario(r *hx.Rng, id int) *scenario {
 // coldMoveScenario: pipelined replay, a hot key whose slot never moves and a cold key on another node whose slot is handed over
 // early: the MOVED answer makes the client refresh its slot map while batches of the hot key are in flight on a slow connection
 func coldMoveScenario(r *hx.Rng, id int) *scenario {
-	sc := &scenario{id: id, mode: "pipeline", start: int64(100 + r.Intn(900)), batch: 1, slowOld: true, slowNode: -1, failNode: -1}
+	sc := &scenario{id: id, mode: "pipeline", start: int64(100 + r.Intn(900)), batch: 1, slowOld: true, slowNode: -1, failNode: -1, hangNode: -1}
 	hot := []byte(fmt.Sprintf("{h%d}hot", r.Intn(40)))
 	cold := []byte(fmt.Sprintf("{c%d}cold", r.Intn(40)))
 	for fakeredis.HashSlot(cold)*3/16384 == fakeredis.HashSlot(hot)*3/16384 {
@@ -155,7 +190,7 @@ func coldMoveScenario(r *hx.Rng, id int) *scenario {
 
 // hotScenario: one hot key, single-command batches, one instant hand-over early in the run
 func hotScenario(r *hx.Rng, id int) *scenario {
-	sc := &scenario{id: id, mode: []string{"pipeline", "batch"}[r.Intn(2)], start: int64(100 + r.Intn(900)), batch: 1 + r.Intn(2), slowNode: -1, failNode: -1}
+	sc := &scenario{id: id, mode: []string{"pipeline", "batch"}[r.Intn(2)], start: int64(100 + r.Intn(900)), batch: 1 + r.Intn(2), slowNode: -1, failNode: -1, hangNode: -1}
 	sc.keys = [][]byte{[]byte(fmt.Sprintf("{h%d}hot", r.Intn(40))), []byte(fmt.Sprintf("{c%d}cold", r.Intn(40)))}
 	n := 10 + r.Intn(8)
 	for i := 0; i < n; i++ {
@@ -176,7 +211,7 @@ func hotScenario(r *hx.Rng, id int) *scenario {
 }
 
 func genScenario(r *hx.Rng, id int, maxCmds int) *scenario {
-	sc := &scenario{id: id, mode: []string{"batch", "pipeline", "txn", "txnpipe"}[r.Intn(4)], start: int64(100 + r.Intn(900)), batch: 1 + r.Intn(4), slowNode: -1, failNode: -1}
+	sc := &scenario{id: id, mode: []string{"batch", "pipeline", "txn", "txnpipe"}[r.Intn(4)], start: int64(100 + r.Intn(900)), batch: 1 + r.Intn(4), slowNode: -1, failNode: -1, hangNode: -1}
 	if r.Chance(30) {
 		sc.slowNode = r.Intn(3)
 	}
@@ -336,6 +371,17 @@ func runScenario(sc *scenario, tr *hx.Trace) int {
 				return nil, fakeredis.CloseConn
 			}
 			return nil, fakeredis.Proceed
+		}
+	}
+	if sc.hangNode >= 0 && sc.hangNode < len(cs.Nodes) {
+		var hung atomic.Bool
+		k0 := string(sc.keys[0])
+		cs.Nodes[sc.hangNode].AfterExec = func(connID int, name string, args [][]byte) fakeredis.Action {
+			// (key 0 reaches this node only after its own hand-over)
+			if name == "rpush" && len(args) > 0 && string(args[0]) == k0 && armed.Load() && len(migLog) > 0 && !hung.Swap(true) {
+				return fakeredis.CloseConn
+			}
+			return fakeredis.Proceed
 		}
 	}
 	if sc.slowNode >= 0 && sc.slowNode < len(cs.Nodes) {
@@ -605,6 +651,8 @@ func main() {
 		sc := genScenario(r, s+1+*idBase, *maxCmds)
 		if *hot > 0 && s%*hot == 1 && s%(2**hot) == 1 {
 			sc = failFastScenario(r, s+1+*idBase)
+		} else if *hot > 0 && s%*hot == 3 && s%(2**hot) == 3 {
+			sc = hangUpScenario(r, s+1+*idBase)
 		} else if *hot > 0 && s%*hot == 2 && s%(2**hot) == 2 {
 			sc = tryAgainScenario(r, s+1+*idBase)
 		} else if *hot > 0 && s%*hot == 0 && s%(2**hot) != 0 {
